@@ -116,7 +116,7 @@ def apply_call(comp, call):
         if kind == 'add':
             comp.add_jumper(bib=arg, order=BIBS.index(arg) + 1)
         elif kind == 'bar':
-            comp.set_bar_height(Decimal(arg))
+            comp.set_bar_height(enc(arg))
         else:
             getattr(comp, LETTER[kind])(arg)
         return None
@@ -131,7 +131,7 @@ def log_entry(call):
     if kind == 'add':
         return ('add_jumper', dict(bib=arg, order=BIBS.index(arg) + 1))
     if kind == 'bar':
-        return ('set_bar_height', Decimal(arg))
+        return ('set_bar_height', enc(arg))
     return (LETTER[kind], arg)
 
 
@@ -170,7 +170,38 @@ def cards_of(comp):
     return {j.bib: strip_card(j.attempts_by_height) for j in comp.jumpers}
 
 
+# height codec: the model and the alphabet work with small integers k (only the order of heights matters to the rules); what is passed to the
+# API for k is Decimal(k) by default, or a realistic value of another numeric type (observables are decoded back to k)
+CODEC = None      # (name, {k: api value}, {rounded float: k})
+
+
+def set_codec(name):
+    global CODEC
+    if name is None:
+        CODEC = None
+        return
+    base = Decimal('2.27')
+    ks = range(-30, 80)
+    if name == 'float-cm':          # 1 cm steps as binary floats: 2.29, 2.30 (=2.29999...), 2.31, ...
+        enc = {k: float(base + Decimal(k) / 100) for k in ks}
+    elif name == 'decimal-cm':      # 1 cm steps as two-place Decimals
+        enc = {k: base + Decimal(k) / 100 for k in ks}
+    elif name == 'decimal-mm':      # 5 mm steps as three-place Decimals (pole vault bars in imperial conversions)
+        enc = {k: Decimal('2.270') + Decimal(k) * 5 / 1000 for k in ks}
+    else:
+        raise HarnessError('unknown height codec %r' % name)
+    CODEC = (name, enc, {round(float(v), 6): k for k, v in enc.items()})
+
+
+def enc(k):
+    return Decimal(k) if CODEC is None else CODEC[1][int(k)]
+
+
 def hnum(h):
+    if CODEC is not None and not isinstance(h, int):
+        k = CODEC[2].get(round(float(h), 6))
+        if k is not None:
+            return k
     h = Decimal(h)
     return int(h) if h == h.to_integral_value() else float(h)
 
